@@ -236,8 +236,11 @@ def gen_schedules(specdir, sch, tier, seed):
         out.append({"h": d["h"], "d": sorted(d.get("d", [])), "src": src})
 
     # counterexamples of the as-built configuration: one schedule per violated invariant
-    for cfg in sch.get("cex", []):
-        r = run_tlc(specdir, sch["module"], cfg, timeout=sch.get("timeout", 600))
+    import concurrent.futures as _cf
+    cexs = list(sch.get("cex_" + tier) or sch.get("cex", []))
+    with _cf.ThreadPoolExecutor(max_workers=4) as ex:
+        cex_runs = list(ex.map(lambda cfg: run_tlc(specdir, sch["module"], cfg, workers=4, timeout=sch.get("timeout", 600)), cexs))
+    for cfg, r in zip(cexs, cex_runs):
         if r["ok"]:
             continue  # nothing violated (e.g. after a repair): no counterexample schedule
         if not r["invariant"]:
